@@ -418,6 +418,15 @@ def run_case(concepts, case, spec):
         call(lat.__getitem__, tuple(sub))
     if False:
         pass
+    if hash(gen.table_key(case)) % 12 == 0:
+        def queries(c):
+            for sub in (list(c.objects[:1]), list(c.objects[-2:]), list(c.properties[:1]), list(c.properties)):
+                call(c.__getitem__, tuple(sub))
+            l_ = common.get_lattice(c)
+            if l_ is not RAISED:
+                call(l_.__getitem__, tuple(c.objects[:1]))
+                call(l_, list(c.properties[:1]))
+        common.registry_history(concepts, case, rng, queries)
     old = POOL.older(rng)
     if old is not None:
         octx, olat = old
